@@ -196,12 +196,12 @@ def b2(ctx, rid):
         raise core.AnchorLost('IndexStruct::push')
     for f in pushes:
         adds = [c.bb for c in f.calls if c.name == 'add' and prims.receiver_field(f, c) == 'filter']
-        ins = [c for c in f.calls if c.name == 'insert' and (c.path.startswith('std::vec::Vec') or 'BTreeMap' in c.path or 'btree' in c.path)]
+        ins = prims.header_insert_sites(prog, f)
         if len(ins) < 2:
             raise core.AnchorLost('insert sites in push')
         reach = f.reach_from([0], avoid_exit=adds)
-        for c in ins:
-            key = 'add-before-insert|%s|%s' % (f.id, 'vec' if 'Vec' in c.path else 'map')
+        for (c, kind) in ins:
+            key = 'add-before-insert|%s|%s' % (f.id, kind)
             if c.bb in reach:
                 ctx.bad(rid, key, c.where(), 'a header is inserted into the in-memory index without its key having been added to the blob filter')
             else:
@@ -271,8 +271,18 @@ def b4(ctx, rid):
     f = prog.body_of('filter::hierarchical::HierarchicalFilters::<Key, Filter, Child>::add_child')
     if f is None:
         raise core.AnchorLost('add_child')
-    merges = [c for c in f.calls if c.name in ('add_filter_from_cow', 'merge_filters')]
-    inits = [c for c in f.calls if c.name == 'init_filter_from_cow']
+    def mi(g):
+        return ([c for c in g.calls if c.name in ('add_filter_from_cow', 'merge_filters')], [c for c in g.calls if c.name == 'init_filter_from_cow'])
+    merges, inits = mi(f)
+    if not merges or not inits:
+        # the linking + merging part may be a helper of add_child (`link_leaf_and_merge_filter`)
+        for c in f.calls:
+            for t in prog.resolve(c):
+                g = prog.body_of(t) if t in prog.fns else None
+                if g is not None and g.file == f.file and g.id != f.id:
+                    m2, i2 = mi(g)
+                    if m2 and i2:
+                        f, merges, inits = g, m2, i2
     if not merges or not inits:
         raise core.AnchorLost('merge / init calls in add_child')
     # (a) ancestor loop
@@ -826,9 +836,32 @@ def b13(ctx, rid):
                             continue
                         # on the Leaf arm the helper's result is is_none / is_some of get_child(..)
                         rets = [o for o in core.origins(h, 0) if o.kind == 'call' and o.data.name in ('is_none', 'is_some') and any(x.kind == 'call' and x.data.name == 'get_child' for x in core.origins(h, o.data.args[0])) and o.data.bb in h.reach_from(hl)]
-                        if not rets:
-                            continue
-                        vacant_true = rets[0].data.name == 'is_none'
+                        if rets:
+                            vacant_true = rets[0].data.name == 'is_none'
+                        else:
+                            # a match with guards answering constants: `Inner::Leaf(l) if get_child(l).is_none() => false`
+                            vac = []
+                            for cc in h.calls:
+                                if cc.name in ('is_none', 'is_some') and cc.path.startswith('std::option::Option') and cc.bb in h.reach_from(hl) \
+                                   and any(x.kind == 'call' and x.data.name == 'get_child' for x in core.origins(h, cc.args[0])):
+                                    carry = core.flows_forward(h, cc.dest[0])
+                                    for j in h.reachable():
+                                        ht = h.blocks[j]['t']
+                                        if ht['k'] == 'switch' and op_local(ht['o']) in carry:
+                                            for v, tg in ht['vals']:
+                                                if (v != 0) != (cc.name == 'is_none'):
+                                                    pass
+                                            nz = ht['otherwise']
+                                            z = [tg for v, tg in ht['vals'] if v == 0]
+                                            vac += [nz] if cc.name == 'is_none' else z
+                            consts = set()
+                            for (bb, si, kind, r) in h.defs().get(0, []):
+                                if kind == 'assign' and r['k'] == 'use' and op_const(r['o']) is not None and bb in h.reach_from(vac):
+                                    k = op_const(r['o'])
+                                    consts.add(bool(k.get('int', 0)) if 'int' in k else str(k.get('bool', '')).lower() == 'true')
+                            if not vac or len(consts) != 1:
+                                continue
+                            vacant_true = consts.pop()
                         # push must lie on the edge where the slot is occupied
                         want_zero = vacant_true != neg     # helper true = vacant: push on the 0 edge (unless negated)
                         edge = [tg for v, tg in t['vals'] if (v == 0) == want_zero] or ([t['otherwise']] if (not want_zero) and all(v == 0 for v, _ in t['vals']) else [])
